@@ -2296,12 +2296,12 @@ func lemmaForwardSession(raw *rawEnvelope) (e *Session, e3 *Session, accepted bo
 //@   oncall [C09] (*ClientChannel).receiveSessionFromServer : synced(c.channel) && recvSes(c.channel).State == SessionStateNegotiating ==> (recvSes(c.channel).Encryption != "" ==> c.transport.enc == recvSes(c.channel).Encryption) && (recvSes(c.channel).Compression != "" ==> c.transport.comp == recvSes(c.channel).Compression)  ## the client has switched to every option the server confirmed before it exchanges anything else
 //@   panics only-if ctx == nil || authenticator == nil || c.state != SessionStateNew || compSelector == nil || encryptSelector == nil
 //@   modifies c.localNode, c.remoteNode, c.sessionID, c.state, c.startRcv.fired, c.stopRcv.fired, c.transport.nRecv, c.transport.lastRecv, recvClock, c.transport.connected, c.transport.nSent, c.transport.lastSent, c.transport.nSentSes, c.transport.lastSes, c.transport.stage, c.transport.offerEnc, c.transport.offerComp, c.transport.offerSchemes, c.transport.confEnc, c.transport.confComp, c.transport.enc, c.transport.comp, c.cancel
-//@   loop 0 invariant ses != nil && c.sessionID == ses.ID && c.state == ses.State && c.transport.nRecv > 0 && cliOK(c)
-//@   loop 0 invariant step(c.state) < 3 ==> synced(c.channel) && recvSes(c.channel) == ses
+//@   loop 0 invariant carried(*Session) != nil && c.sessionID == carried(*Session).ID && c.state == carried(*Session).State && c.transport.nRecv > 0 && cliOK(c)
+//@   loop 0 invariant step(c.state) < 3 ==> synced(c.channel) && recvSes(c.channel) == carried(*Session)
 //@   loop 0 invariant c.startRcv.fired && !old(c.startRcv.fired) ==> step(c.state) >= 3
-//@   loop 0 invariant ses.State == SessionStateEstablished ==> c.startRcv.fired
-//@   loop 0 invariant ses.State == SessionStateEstablished ==> c.localNode == ses.To && c.remoteNode == ses.From
-//@   loop 0 invariant ses.State == SessionStateFinished || ses.State == SessionStateFailed ==> !c.transport.connected
+//@   loop 0 invariant carried(*Session).State == SessionStateEstablished ==> c.startRcv.fired
+//@   loop 0 invariant carried(*Session).State == SessionStateEstablished ==> c.localNode == carried(*Session).To && c.remoteNode == carried(*Session).From
+//@   loop 0 invariant carried(*Session).State == SessionStateFinished || carried(*Session).State == SessionStateFailed ==> !c.transport.connected
 //@   ensures @truth err == nil ==> result0 != nil && c.sessionID == result0.ID && c.state == result0.State
 //@   ensures @lastword err == nil && step(c.state) < 3 ==> recvSes(c.channel) == result0
 //@   ensures @nodes err == nil && result0.State == SessionStateEstablished ==> c.localNode == result0.To && c.remoteNode == result0.From
@@ -2513,8 +2513,8 @@ func lemmaForwardSession(raw *rawEnvelope) (e *Session, e3 *Session, accepted bo
 //@   requires [C07] @clientword c.state == SessionStateNew && effStage(c.transport) == 0 && firstWordOK(c)
 //@   panics only-if ctx == nil
 //@   modifies c.state, c.startRcv.fired, c.stopRcv.fired, c.transport.nRecv, c.transport.lastRecv, recvClock, c.transport.connected, c.transport.nSent, c.transport.lastSent, c.transport.nSentSes, c.transport.lastSes, c.transport.stage, c.transport.offerEnc, c.transport.offerComp, c.transport.offerSchemes, c.transport.confEnc, c.transport.confComp, c.transport.enc, c.transport.comp, c.cancel
-//@   loop 0 invariant 0 <= it_ && it_ <= len(compOpts) && compOptsMap != nil && subset(domof(compOptsMap), elems(compOpts))
-//@   loop 1 invariant 0 <= it_ && it_ <= len(encryptOpts) && encryptOptsMap != nil && subset(domof(encryptOptsMap), elems(encryptOpts)) && compOptsMap != nil && subset(domof(compOptsMap), elems(compOpts))
+//@   loop 0 invariant 0 <= it_ && it_ <= len(compOpts) && local(map[SessionCompression]struct{}) != nil && subset(domof(local(map[SessionCompression]struct{})), elems(compOpts))
+//@   loop 1 invariant 0 <= it_ && it_ <= len(encryptOpts) && local(map[SessionEncryption]struct{}) != nil && subset(domof(local(map[SessionEncryption]struct{})), elems(encryptOpts)) && local(map[SessionCompression]struct{}) != nil && subset(domof(local(map[SessionCompression]struct{})), elems(compOpts))
 //@   ensures [C09,C10] @applied result == nil && c.state == SessionStateNegotiating ==> c.transport.stage == 2 && c.transport.nSentSes > 0 && c.transport.enc == c.transport.confEnc && c.transport.comp == c.transport.confComp && inset(elems(encryptOpts), c.transport.confEnc) && inset(elems(compOpts), c.transport.confComp)
 //@   ensures [C07] @failclosed result == nil && c.state != SessionStateNegotiating ==> c.state == SessionStateFailed && !c.transport.connected
 //@   ensures [C09] @offerexact result == nil && c.state == SessionStateNegotiating ==> c.transport.offerEnc == encryptOpts && c.transport.offerComp == compOpts
@@ -2572,9 +2572,9 @@ func lemmaForwardSession(raw *rawEnvelope) (e *Session, e3 *Session, accepted bo
 //@   requires [C10] @policy policy(c)
 //@   panics only-if ctx == nil
 //@   modifies c.state, c.remoteNode, c.startRcv.fired, c.stopRcv.fired, c.transport.nRecv, c.transport.lastRecv, recvClock, c.transport.connected, c.transport.nSent, c.transport.lastSent, c.transport.nSentSes, c.transport.lastSes, c.transport.stage, c.transport.offerEnc, c.transport.offerComp, c.transport.offerSchemes, c.transport.confEnc, c.transport.confComp, authN, authClock, authIdentity, authArg, authRes, authErr, regN, regClock, regSeqAuth, regCand, regChan, regRes, regErr, c.cancel
-//@   loop 0 invariant 0 <= it_ && it_ <= len(schemeOpts) && schemeOptsMap != nil && subset(domof(schemeOptsMap), elems(schemeOpts))
-//@   loop 1 invariant srvInv(c) && ses != nil && err == nil && schemeOptsMap != nil && subset(domof(schemeOptsMap), elems(schemeOpts)) && policy(c)
-//@   loop 1 invariant c.state == SessionStateAuthenticating ==> istype(c.transport.lastRecv, *Session) && recvSes(c.channel) == ses && c.transport.nSentSes > 0 && c.transport.stage == 3 && c.transport.offerSchemes == schemeOpts
+//@   loop 0 invariant 0 <= it_ && it_ <= len(schemeOpts) && local(map[AuthenticationScheme]struct{}) != nil && subset(domof(local(map[AuthenticationScheme]struct{})), elems(schemeOpts))
+//@   loop 1 invariant srvInv(c) && carried(*Session) != nil && err == nil && local(map[AuthenticationScheme]struct{}) != nil && subset(domof(local(map[AuthenticationScheme]struct{})), elems(schemeOpts)) && policy(c)
+//@   loop 1 invariant c.state == SessionStateAuthenticating ==> istype(c.transport.lastRecv, *Session) && recvSes(c.channel) == carried(*Session) && c.transport.nSentSes > 0 && c.transport.stage == 3 && c.transport.offerSchemes == schemeOpts
 //@   loop 1 invariant c.state == SessionStateAuthenticating || c.state == SessionStateEstablished || c.state == SessionStateFailed
 //@   loop 1 invariant c.state == SessionStateFailed ==> !c.transport.connected
 //@   loop 1 invariant c.transport.connected ==> old(c.transport.connected)
@@ -2596,8 +2596,8 @@ func lemmaForwardSession(raw *rawEnvelope) (e *Session, e3 *Session, accepted bo
 //@   entry-ghost c.cfgComp = elems(compOpts)
 //@   panics only-if ctx == nil || compOpts == nil || encryptOpts == nil || authenticate == nil || register == nil
 //@   modifies c.cfgEnc, c.cfgComp, c.state, c.remoteNode, c.startRcv.fired, c.stopRcv.fired, c.transport.nRecv, c.transport.lastRecv, recvClock, c.transport.connected, c.transport.nSent, c.transport.lastSent, c.transport.nSentSes, c.transport.lastSes, c.transport.stage, c.transport.offerEnc, c.transport.offerComp, c.transport.offerSchemes, c.transport.confEnc, c.transport.confComp, c.transport.enc, c.transport.comp, authN, authClock, authIdentity, authArg, authRes, authErr, regN, regClock, regSeqAuth, regCand, regChan, regRes, regErr, c.cancel
-//@   loop 0 invariant 0 <= it_ && it_ <= len(rng_) && alltags(rng_, SessionCompression) && len(negCompOpts) == it_ && subset(elems(negCompOpts), elems(rng_))
-//@   loop 1 invariant 0 <= it_ && it_ <= len(rng_) && alltags(rng_, SessionEncryption) && len(negEncryptOpts) == it_ && subset(elems(negEncryptOpts), elems(rng_))
+//@   loop 0 invariant 0 <= it_ && it_ <= len(rng_) && alltags(rng_, SessionCompression) && len(carried([]SessionCompression)) == it_ && subset(elems(carried([]SessionCompression)), elems(rng_))
+//@   loop 1 invariant 0 <= it_ && it_ <= len(rng_) && alltags(rng_, SessionEncryption) && len(carried([]SessionEncryption)) == it_ && subset(elems(carried([]SessionEncryption)), elems(rng_))
 //@   ensures [C14] @closedorestablished result == nil && c.state != SessionStateEstablished ==> !c.transport.connected
 //@   ensures [C14] @announcedwhenestablished result == nil && c.state == SessionStateEstablished ==> effStage(c.transport) == 4
 //@   ensures [C07] @failclosed result == nil && c.state != SessionStateEstablished && old(transportOK(c.channel)) ==> c.state == SessionStateFailed || !c.transport.connected
